@@ -20,7 +20,9 @@ Inductive instr :=
   | WrW (f : string)      (* f = ...        (the field is replaced) *)
   | WrE (f : string)      (* f[k] = ..., delete(f,k), f[k]++, ... (changed in place) *)
   | Call (g : string)     (* call of a function of the same file *)
-  | CallCb (c : string).  (* call of a func-valued field (callback) *)
+  | CallCb (c : string)   (* call of a func-valued field (callback) *)
+  | Send (ch : string)    (* blocking send on a channel field *)
+  | Recv (ch : string).   (* receive from a channel field *)
 
 Definition program := list (string * list instr).
 Definition guard_map := list (string * string).   (* field -> mutex *)
@@ -75,7 +77,7 @@ Fixpoint check (G : guard_map) (X R : list string) (c : list instr) : bool :=
   | Rd f :: r => match guard_of G f with Some m => mem m X || mem m R | None => false end && check G X R r
   | WrW f :: r | WrE f :: r => match guard_of G f with Some m => mem m X | None => false end && check G X R r
   | Call _ :: _ => false
-  | CallCb _ :: r => check G X R r
+  | CallCb _ :: r | Send _ :: r | Recv _ :: r => check G X R r
   end.
 
 Definition fuel0 : nat := 12.
@@ -106,7 +108,7 @@ Fixpoint explain (G : guard_map) (X R : list string) (c : list instr) : option s
                              else Some ("writes " ++ f ++ " without holding " ++ m ++ " exclusively")
                  | None => Some ("writes " ++ f ++ " which has no guard") end
   | Call g :: _ => Some ("call of " ++ g ++ " not inlined")
-  | CallCb _ :: r => explain G X R r
+  | CallCb _ :: r | Send _ :: r | Recv _ :: r => explain G X R r
   end.
 
 Definition diagnose (G : guard_map) (P : program) : list (string * string) :=
@@ -163,14 +165,55 @@ Definition one_lock_at_a_time (P : program) : bool :=
   | None => false
   end.
 
+(* ---- no blocking send while holding a mutex the channel's consumer needs ----
+   [consumers]: the (inlined) functions that receive from the channel; a send performed while
+   holding m can wait forever when the queue is full and the consumer is waiting for m.
+   A send under a mutex on a channel nobody (in the translated files) receives from is refused too. *)
+Definition acquired (c : list instr) : list string :=
+  flat_map (fun i => match i with Acq m | AcqR m => [m] | _ => [] end) c.
+Definition receives (ch : string) (c : list instr) : bool :=
+  existsb (fun i => match i with Recv x => String.eqb x ch | _ => false end) c.
+Definition consumer_mutexes (bodies : list (list instr)) (ch : string) : list string :=
+  flat_map (fun b => if receives ch b then acquired b else []) bodies.
+Fixpoint send_ok (bodies : list (list instr)) (X : list string) (c : list instr) : bool :=
+  match c with
+  | [] => true
+  | Acq m :: r | AcqR m :: r => send_ok bodies (m :: X) r
+  | Rel m :: r | RelR m :: r => send_ok bodies (rem1 m X) r
+  | Send ch :: r =>
+      match X with
+      | [] => true
+      | _ => existsb (receives ch) bodies && forallb (fun m => negb (mem m (consumer_mutexes bodies ch))) X
+      end && send_ok bodies X r
+  | _ :: r => send_ok bodies X r
+  end.
+Definition no_blocking_send_under_lock (P : program) : bool :=
+  match inline_all fuel0 P with
+  | Some bodies => forallb (send_ok bodies []) bodies
+  | None => false
+  end.
+Definition blocking_senders (P : program) : list string :=
+  match inline_all fuel0 P with
+  | Some bodies => flat_map (fun p => match inline fuel0 P (snd p) with
+                                      | Some c => if send_ok bodies [] c then [] else [fst p]
+                                      | None => [fst p] end) P
+  | None => map fst P
+  end.
+
 (* ---- a method that is ONE critical section of mutex m (what C13_rw_atomic assumes
    of the announcer's methods): Lock; guarded accesses; Unlock — nothing guarded outside *)
 Definition only_accesses (reads_only : bool) (c : list instr) : bool :=
   forallb (fun i => match i with
-                    | Rd _ => true
+                    | Rd _ | Send _ => true
                     | WrW _ | WrE _ => negb reads_only
                     | _ => false end) c.
-Definition one_section (m : string) (body : list instr) : bool :=
+Definition stateless (i : instr) : bool :=
+  match i with Send _ | Recv _ | CallCb _ => true | _ => false end.
+Fixpoint drop_stateless (c : list instr) : list instr :=
+  match c with i :: r => if stateless i then drop_stateless r else c | [] => [] end.
+(* channel operations and callbacks before Lock / after Unlock do not belong to the section *)
+Definition one_section (m : string) (body0 : list instr) : bool :=
+  let body := rev (drop_stateless (rev (drop_stateless body0))) in
   match body with
   | Acq m1 :: r => String.eqb m1 m &&
       match rev r with
@@ -214,6 +257,9 @@ Inductive step (bodies : list (list instr)) (c : config) : config -> Prop :=
   | SWrW i f r : code (c i) = WrW f :: r -> step bodies c (upd c i (mk_thread (hx (c i)) (hr (c i)) r))
   | SWrE i f r : code (c i) = WrE f :: r -> step bodies c (upd c i (mk_thread (hx (c i)) (hr (c i)) r))
   | SCb i f r : code (c i) = CallCb f :: r -> step bodies c (upd c i (mk_thread (hx (c i)) (hr (c i)) r))
+  (* channel operations may additionally block; letting them always proceed only adds behaviours *)
+  | SSend i f r : code (c i) = Send f :: r -> step bodies c (upd c i (mk_thread (hx (c i)) (hr (c i)) r))
+  | SRecv i f r : code (c i) = Recv f :: r -> step bodies c (upd c i (mk_thread (hx (c i)) (hr (c i)) r))
   (* an idle goroutine starts any function (reconciler workers, responders, fetchers) *)
   | SSpawn i b : code (c i) = [] -> hx (c i) = [] -> hr (c i) = [] -> In b bodies ->
       step bodies c (upd c i (mk_thread [] [] b)).
@@ -297,3 +343,35 @@ Section RW.
 
   Definition rwinit (s0 : S) (h : nat -> rwstate) : Prop := forall i, h i = WIdle \/ h i = RIdle.
 End RW.
+
+(* ---- why a blocking send under the lock deadlocks: a handler and the consumer loop ----
+   handler:  Lock m; <send on ch>; Unlock m      (send under the lock)   [under_lock = true]
+             Lock m; Unlock m; <send on ch>      (send after the unlock) [under_lock = false]
+   consumer: <receive from ch>; RLock m; RUnlock m     forever (spamLoop -> gratuitous)
+   [q] is the number of queued elements, [cap] the channel's capacity. *)
+Section Queue.
+  Inductive hpos := HP0 | HP1 | HP2.     (* before Lock / after the first action / after the second *)
+  Inductive cpos := C0 | C1 | C2.     (* before receive / before RLock / holding the read lock *)
+  Record qstate := mk_qstate { qh : hpos; qc : cpos; qq : nat }.
+  Definition handler_holds (under_lock : bool) (h : hpos) : bool :=
+    match h with HP0 => false | HP1 => true | HP2 => under_lock end.
+
+  Inductive qstep (under_lock : bool) (cap : nat) : qstate -> qstate -> Prop :=
+    | QLock c q : c <> C2 -> qstep under_lock cap (mk_qstate HP0 c q) (mk_qstate HP1 c q)
+    (* send under the lock: HP1 --send--> HP2 --unlock--> HP0 *)
+    | QSendU c q : under_lock = true -> q < cap -> qstep under_lock cap (mk_qstate HP1 c q) (mk_qstate HP2 c (S q))
+    | QUnlockU c q : under_lock = true -> qstep under_lock cap (mk_qstate HP2 c q) (mk_qstate HP0 c q)
+    (* send after the unlock: HP1 --unlock--> HP2 --send--> HP0 *)
+    | QUnlockA c q : under_lock = false -> qstep under_lock cap (mk_qstate HP1 c q) (mk_qstate HP2 c q)
+    | QSendA c q : under_lock = false -> q < cap -> qstep under_lock cap (mk_qstate HP2 c q) (mk_qstate HP0 c (S q))
+    (* the consumer *)
+    | QRecv h q : qstep under_lock cap (mk_qstate h C0 (S q)) (mk_qstate h C1 q)
+    | QRLock h q : handler_holds under_lock h = false -> qstep under_lock cap (mk_qstate h C1 q) (mk_qstate h C2 q)
+    | QRUnlock h q : qstep under_lock cap (mk_qstate h C2 q) (mk_qstate h C0 q).
+
+  Inductive qsteps (under_lock : bool) (cap : nat) : qstate -> qstate -> Prop :=
+    | qsteps_refl s : qsteps under_lock cap s s
+    | qsteps_trans s s' s'' : qsteps under_lock cap s s' -> qstep under_lock cap s' s'' -> qsteps under_lock cap s s''.
+
+  Definition qstuck (under_lock : bool) (cap : nat) (s : qstate) : Prop := forall s', ~ qstep under_lock cap s s'.
+End Queue.
